@@ -30,6 +30,8 @@ def gen(tier, rng):
     cases += [("fanin-batch:%d" % i, p) for i, p in enumerate(c02.fanin_batches(rng, 300 if tier == "quick" else 4000))]
     cases += [("random:%d" % i, p) for i, p in
               enumerate(reactive_gen.random_programs(rng.randrange(1 << 30), n, FEATS, (3, 7), (3, 7)))]
+    # the same batches started while another root is the current one
+    cases += rcheck.via_foreign_copies(cases, kinds=("batch",), every=4)
     return cases
 
 
